@@ -58,9 +58,7 @@ def run(ctx):
         r = roles(ctx, v)
         en = r.enter
         g = cfg_of(en.node)
-        adds = [n for x in own_nodes(en.node) if isinstance(x, ast.Call) and isinstance(x.func, ast.Attribute)
-                and x.func.attr == "add" and isinstance(x.func.value, ast.Attribute) and x.func.value.attr == "_active_state_nodes"
-                for n in cfg_node_of(en, x)]
+        adds = shared.config_op_nodes(ctx, v, en, {"call:add"})
         eacts = _actions_calls(en, "entry")
         c.floor("R3", f"entry-action sites in {en.short}", len(eacts), 1)
         for call in eacts:
@@ -72,9 +70,7 @@ def run(ctx):
         xt = r.exit
         g = cfg_of(xt.node)
         cancels = [n for call in self_calls_in(xt, "_cancel_state_tasks") for n in cfg_node_of(xt, call)]
-        discards = [n for x in own_nodes(xt.node) if isinstance(x, ast.Call) and isinstance(x.func, ast.Attribute)
-                    and x.func.attr in ("discard", "remove") and isinstance(x.func.value, ast.Attribute)
-                    and x.func.value.attr == "_active_state_nodes" for n in cfg_node_of(xt, x)]
+        discards = shared.config_op_nodes(ctx, v, xt, {"call:discard", "call:remove"})
         xacts = _actions_calls(xt, "exit")
         c.floor("R3", f"exit-action sites in {xt.short}", min(len(xacts), len(cancels), len(discards)), 1)
         for call in xacts:
